@@ -36,6 +36,26 @@ def gadget_tasks(prefix: str, opsets: list[list[dict]], only: list[str] | None =
     return tasks
 
 
+def feature_tasks(prefix: str, opsets, kinds=None, max_n=5, rng=None, hist=None):
+    """
+    networks selected for structural features (harness/features.py; catalogue/features.json).
+    opsets: list of op lists (each applied to every network), or None with hist=(kinds, steps, tail, count) for
+    random histories.
+    """
+    import features
+    tasks = []
+    for name, tt in features.feature_networks(kinds, max_n):
+        if opsets is not None:
+            for j, ops in enumerate(opsets):
+                tasks.append({"tid": f"{prefix}{name}_{j}", "tt": tt, "ops": ops, "meta": f"feature:{name}"})
+        else:
+            hk, steps, tail, count = hist
+            for j in range(count):
+                tasks.append({"tid": f"{prefix}{name}_{j}", "tt": tt, "hseed": rng.randrange(1 << 30), "kinds": hk,
+                              "steps": rng.randint(*steps), "tail": tail, "meta": f"feature:{name}"})
+    return tasks
+
+
 # ------------------------------------------------------------------------------------------------
 def c02(res: Result):
     q = res.tier == Q
@@ -47,6 +67,7 @@ def c02(res: Result):
     for i, tt in enumerate(gen.network_pool(rng, 500 if q else 6000, [3, 3, 4, 4, 5] if q else [3, 4, 4, 5, 5, 6])):
         tasks.append({"tid": f"r{i}", "tt": tt, "ops": [rng.choice([FULL_BFS, FULL_DFS])], "meta": "random-net full expansion"})
     tasks += gadget_tasks("g", [[FULL_BFS], [FULL_DFS]])
+    tasks += feature_tasks("f", [[FULL_BFS], [FULL_DFS]], max_n=6)
     invs = ["Inv_STRUCT", "Inv_XL", "Inv_RET", "Inv_WF", "Inv_PartialFaithful", "Inv_FullExact", "Inv_MinExact"]
     res.cov["rule"] = ("TLC explores BFS/DFS/single expansions on all 256 two-variable networks; the real library runs a full "
                        "BFS or DFS on those and on random 3-6 variable networks (sources, constants, non-monotonic functions); "
@@ -67,6 +88,7 @@ def c04(res: Result):
     tasks = tasks_from_emitted(recs, rng, 1500 if q else 20000, "m", tail=[FULL_BFS])
     tasks += random_tasks(rng, 500 if q else 6000, [3, 3, 4, 4, 5] if q else [3, 4, 4, 5, 5, 6],
                           gen.PLAIN_KINDS + ["blockplain"], (1, 4), "r", tail=[FULL_BFS])
+    tasks += feature_tasks("f", None, rng=rng, hist=(gen.PLAIN_KINDS + ["cand", "blockplain"], (2, 5), [FULL_BFS], 3 if q else 12))
     invs = ["Inv_STRUCT", "Inv_XL", "Inv_RET", "Inv_ORACLE", "Inv_WF", "Inv_PartialFaithful", "Inv_PlainOnly", "Inv_FullExact"]
     res.cov["rule"] = ("Histories of plain expansion calls (single node, BFS, DFS, minimal-space, attractor-seed, target-directed, block "
                        "without source shortcut; all start nodes, size/level/stack limits 0..3 and none): every abstract idle state of the "
@@ -86,6 +108,9 @@ def c20(res: Result):
     tasks += random_tasks(rng, 600 if q else 8000, [3, 3, 4, 4, 5] if q else [3, 4, 4, 5, 5, 6],
                           gen.PLAIN_KINDS + ["skipmin", "skiprem", "minskip", "pickle"], (1, 5), "r")
     tasks += gadget_tasks("g", [[FULL_BFS], [FULL_DFS], [{"op": "exp", "n": 1}, {"op": "exp", "n": 3}, FULL_BFS]])
+    # deep diagrams with percolation shortcuts: many single-node expansions in random order
+    tasks += feature_tasks("f", None, kinds=["shortcut", "shortcut2", "deep", "modules"], max_n=6, rng=rng,
+                           hist=(["exp", "exp", "exp", "exp", "bfs", "dfs", "skipmin"], (6, 14), [], 4 if q else 20))
     invs = ["Inv_IDS", "Inv_DEPTHC", "Inv_IDX", "Inv_DepthExact", "Inv_IndexExact"]
     res.cov["rule"] = ("Same history generator as C04 extended with skip operations and pickling; after every call TLC compares ids, order, "
                        "depths and the key index with the model and checks depth = longest root path, depth() = max, ids contiguous, "
@@ -98,6 +123,28 @@ def c20(res: Result):
             indeg[e["c"]] = indeg.get(e["c"], 0) + 1
         return post["depth"] >= 2 or any(v >= 2 for v in indeg.values())
     execute_and_validate(res, tasks, invs, "meta", nt)
+    # action-level conformance of the depth propagation from arbitrary DAG states (DepthTrace.tla)
+    import depthfuzz
+    wd = os.path.join(sdcheck.WORK, res.pid, "depthfuzz")
+    shutil.rmtree(wd, ignore_errors=True)
+    os.makedirs(wd)
+    tf = os.path.join(wd, "traces.ndjson")
+    depthfuzz.record_many(1500 if q else 20000, res.seed + 1, tf)
+    out = tlc.validate_traces(tf, "DepthTrace", ["Inv_DEPTHSTEP", "Inv_DepthExactD"], wd)
+    res.cov["traces_validated_against_impl"] += out["traces"]
+    res.cov["states"] += out["states"]
+    res.cov["transitions"] += out["generated"]
+    res.cov["depth_action_traces"] = out["traces"]
+    bad_tids = sorted({v[1] for v in out["violations"]})
+    if bad_tids:
+        traces = {json.loads(ln)["tid"]: json.loads(ln) for ln in open(tf)}
+        for tid in bad_tids[:10]:
+            vd = os.path.join(sdcheck.WORK, res.pid, "violations", f"depthfuzz_{tid}")
+            os.makedirs(vd, exist_ok=True)
+            json.dump(traces[tid], open(os.path.join(vd, "trace.json"), "w"))
+            json.dump({"property": "C20", "engine": "depth-action", "failing": [list(v) for v in out["violations"] if v[1] == tid]},
+                      open(os.path.join(vd, "verdict.json"), "w"), indent=1)
+            res.violations.append(vd)
 
 
 STRATEGY_TAILS = [
@@ -129,6 +176,10 @@ def c03(res: Result):
                 {"op": "scc", "maa": rng.random() < 0.5},
                 {"op": "build"}])
             tasks.append({"tid": f"s{i}", "tt": tt, "ops": [op], "meta": "fresh block/scc/build"})
+    for j, tail in enumerate(STRATEGY_TAILS + [[{"op": "skiprem"}]]):
+        tasks += feature_tasks(f"f{j}", None, rng=rng, hist=(gen.PLAIN_KINDS, (0, 3), tail, 1 if q else 4))
+    tasks += feature_tasks("fb", [[{"op": "block", "maa": m, "optsrc": o, "exact": False, "size": -1}] for m in (True, False) for o in (True, False)]
+                           + [[{"op": "scc", "maa": m}] for m in (True, False)] + [[{"op": "build"}]])
     invs = ["Inv_MinExact", "Inv_WF"]
     res.cov["rule"] = ("Random and TLC-generated prefixes of plain expansion calls (with limits) followed by a strategy from the root "
                        "(BFS, DFS, minimal-space with/without skip_ignored, attractor-seed, skip_remaining), and block / source-SCC / build on "
@@ -158,6 +209,7 @@ def c14(res: Result):
                                 [{"op": "seeds", "n": 1}, {"op": "scc", "maa": True}],
                                 [{"op": "seeds", "n": 1}, {"op": "block", "maa": True, "optsrc": True, "exact": False, "size": -1}],
                                 [{"op": "exp", "n": 1}, {"op": "seeds", "n": 2}, {"op": "seeds", "n": 3}, {"op": "block", "maa": False, "optsrc": True, "exact": False, "size": -1}]])
+    tasks += feature_tasks("f", None, rng=rng, hist=(kinds, (3, 7), [], 2 if q else 8))
     invs = ["Inv_CACHE", "Inv_CacheFresh", "Inv_OUT"]
     res.cov["rule"] = ("Histories interleaving attractor queries (candidates / seeds / sets, also on unexpanded nodes) with every way of giving "
                        "a node successors (single expansion, BFS/DFS, minimal-space with skip_ignored, skip_to_minimal, skip_remaining, block with "
@@ -194,6 +246,7 @@ def c01(res: Result):
         tasks.append({"tid": f"r{i}", "tt": tt, "ops": COMPLETE_DEFAULT[i % 6] + [{"op": "expseeds"}], "meta": "random net"})
     for j, strat in enumerate(COMPLETE_DEFAULT):
         tasks += gadget_tasks(f"g{j}", [strat + [{"op": "expseeds"}]])
+    tasks += feature_tasks("f", [strat + [{"op": "expseeds"}] for strat in COMPLETE_DEFAULT])
     invs = ["Inv_C01", "Inv_WF", "Inv_HANG"]
     res.cov["rule"] = ("Each of the six complete strategies with default settings on a fresh diagram, then seeds for every expanded node; TLC computes "
                        "the attractors (terminal SCCs of the asynchronous transition graph) from the truth tables and checks the bijection and that "
@@ -227,6 +280,10 @@ def c05(res: Result):
     tasks += gadget_tasks("g", [[{"op": "exp", "n": 1}, {"op": "skiprem"}, {"op": "allseeds"}],
                                 [{"op": "skiprem"}, {"op": "allseeds"}],
                                 [{"op": "bfs", "n": 1, "lvl": 0, "size": -1}, {"op": "skipmin", "n": 2}, {"op": "skiprem"}, {"op": "allseeds"}]])
+    tasks += feature_tasks("f", [[{"op": "exp", "n": 1}, {"op": "skiprem"}, {"op": "allseeds"}],
+                                 [{"op": "bfs", "n": 1, "lvl": 1, "size": -1}, {"op": "skiprem"}, {"op": "allseeds"}],
+                                 [{"op": "exp", "n": 1}, {"op": "seeds", "n": 1}, {"op": "skipmin", "n": 2}, {"op": "skipmin", "n": 3}, {"op": "skiprem"}, {"op": "allseeds"}],
+                                 [{"op": "min", "n": 1, "size": 3, "skip": True}, {"op": "skiprem"}, {"op": "allseeds"}]])
     invs = ["Inv_SeedsAll", "Inv_WF", "Inv_HANG"]
     res.cov["rule"] = ("Expansion stopped early (BFS/DFS/minimal-space/block with size, level and stack limits), remaining nodes skipped "
                        "(skip_remaining, skip_to_minimal, skip_ignored), seeds requested for all nodes in id order; TLC checks every attractor is "
@@ -261,6 +318,17 @@ def c08(res: Result):
     for gi, (g, o) in enumerate([(a, b) for a in (True, False) for b in (True, False)]):
         tasks += gadget_tasks(f"g{gi}", [[{"op": "cand", "n": 1, "greedy": g, "sim": o}],
                                          [{"op": "exp", "n": 1}, {"op": "cand", "n": 1, "greedy": g, "sim": o}, {"op": "cand", "n": 2, "greedy": g, "sim": o}]])
+    # skip nodes below ancestors whose attractor data is already known (order matters for the skip rule)
+    pats = []
+    for g, o in [(True, True), (False, False), (True, False)]:
+        pats.append([{"op": "exp", "n": 1}, {"op": "seeds", "n": 1}] + [{"op": "skipmin", "n": k} for k in (2, 3, 4)]
+                    + [{"op": "cand", "n": k, "greedy": g, "sim": o} for k in (2, 3, 4, 1)])
+        pats.append([{"op": "bfs", "n": 1, "lvl": 1, "size": -1}, {"op": "allseeds"}, {"op": "skiprem"}]
+                    + [{"op": "cand", "n": k, "greedy": g, "sim": o} for k in (1, 2, 3, 4, 5, 6)])
+        pats.append([{"op": "cand", "n": 1, "greedy": g, "sim": o}, {"op": "exp", "n": 1}]
+                    + [{"op": "cand", "n": k, "greedy": g, "sim": o} for k in (1, 2, 3, 4)])
+    tasks += feature_tasks("f", pats)
+    tasks += gadget_tasks("h", pats)
     invs = ["Inv_Covers", "Inv_RET", "Inv_HANG"]
     res.cov["rule"] = ("node_attractor_candidates on expanded, unexpanded and skipped nodes under all 4 option combinations and a grid of "
                        "configuration values (candidate limit and optimisation threshold in {0,1,2,3,default}, simulation budget {0,1,default}, "
@@ -295,6 +363,8 @@ def c12(res: Result):
             tasks.append({"tid": f"f{i}", "tt": tt, "cfg": {"maxm": 100000, "candlim": rng.choice([0, 1]), "rsthr": 1000, "simbudget": 1000, "nfvsthr": 2000},
                           "ops": pre + [{"op": "seeds", "n": k, "fallback": True} for k in (1, 2, 3)] + [{"op": "sets", "n": k} for k in (1, 2, 3)],
                           "meta": "symbolic fallback (candidate limit forces RuntimeError)"})
+    tasks += feature_tasks("f", [[{"op": "sets", "n": 1}], [FULL_BFS] + [{"op": "sets", "n": k} for k in range(1, 9)],
+                                 [{"op": "exp", "n": 1}] + [{"op": o, "n": k} for k in (1, 2, 3) for o in ("seeds", "reclaim", "sets")]])
     invs = ["Inv_SetsFresh", "Inv_CacheFresh", "Inv_CACHE", "Inv_OUT", "Inv_HANG"]
     res.cov["rule"] = ("Attractor sets requested before/after seeds and candidates, after reclamation and pickling, on expanded and unexpanded "
                        "nodes; and seeds via the symbolic fallback (forced by a tiny candidate limit). TLC checks that set i is exactly the "
@@ -554,7 +624,264 @@ def c07(res: Result):
     run_control(res, tasks, ["Inv_C07", "Inv_FLAG"], "exact", lambda e: any(x["succ"] for x in e["res"]))
 
 
-CHECKS = {"C06": c06, "C07": c07, "C09": c09, "C10": c10, "C11": c11, "C15": c15, "C01": c01, "C02": c02, "C03": c03, "C04": c04, "C05": c05, "C08": c08, "C12": c12, "C14": c14, "C20": c20}
+def c13(res: Result):
+    q = res.tier == Q
+    rng = random.Random(res.seed + 13)
+    # (1) liveness of the attractor test under every answer of the size oracle
+    for mode in (["all2"] if q else ["all2", "file"]):
+        wd = os.path.join(sdcheck.WORK, res.pid, "at_" + mode)
+        shutil.rmtree(wd, ignore_errors=True)
+        os.makedirs(wd)
+        cfg = os.path.join(wd, "at.cfg")
+        tlc.write_cfg(cfg, invariants=["TypeOK", "Contract", "Sound"], properties=["Termination"],
+                      constants={"NetMode": f'"{mode}"', "Force": "TRUE"})
+        r = tlc.model_check("AttractorTest", cfg, wd)
+        res.cov["states"] += r["distinct"]
+        res.cov["transitions"] += r["generated"]
+        res.cov["mc_runs"].append({"name": "AttractorTest liveness", "nets": mode, "distinct_states": r["distinct"],
+                                   "properties": ["Termination", "Contract", "Sound"], "ok": r["ok"], "wall_s": round(r["wall_s"], 1)})
+        if not r["ok"]:
+            res.violations.append(f"{r['log']}#model:{','.join(r['violated'])}")
+    # (2) liveness of the expansion drivers: every started call returns (weak fairness on micro-steps)
+    wd = os.path.join(sdcheck.WORK, res.pid, "drivers")
+    shutil.rmtree(wd, ignore_errors=True)
+    os.makedirs(wd)
+    cfg = os.path.join(wd, "live.cfg")
+    tlc.write_cfg(cfg, spec="FairSpec", properties=["CallsTerminate"], view="view",
+                  constants={"MaxCalls": 1 if q else 2, "NetMode": '"all2"', "Limits": tlc.tla_set([0, 2]), "MaxM": tlc.tla_set([1000]),
+                             "Ops": tlc.tla_set(["exp", "bfs", "dfs", "min", "tgt", "aseeds"]), "FailAts": tlc.tla_set([0]),
+                             "EmitFrom": 99})
+    r = tlc.model_check("MC_SD", cfg, wd)
+    res.cov["states"] += r["distinct"]
+    res.cov["transitions"] += r["generated"]
+    res.cov["mc_runs"].append({"name": "driver liveness", "distinct_states": r["distinct"], "properties": ["CallsTerminate"],
+                               "ok": r["ok"], "wall_s": round(r["wall_s"], 1)})
+    if not r["ok"]:
+        res.violations.append(f"{r['log']}#model:{','.join(r['violated'])}")
+    # (3) the library: every kind of call on every kind of node; loop events, work counts, watchdog
+    kinds = ["exp", "bfs", "dfs", "min", "minskip", "skipmin", "skiprem", "cand", "seeds", "seeds", "sets", "aseeds", "tgt",
+             "block", "scc", "reclaim"]
+    tasks = random_tasks(rng, 700 if q else 12000, [3, 3, 4, 4, 5] if q else [3, 4, 4, 5, 5, 6], kinds, (2, 6), "r",
+                         profiles=["sparse", "sparse", "modular", "mixed"], tail=[{"op": "allseeds"}])
+    cfgs = [{"maxm": 100000, "candlim": 100000, "rsthr": t, "simbudget": b, "nfvsthr": f}
+            for t in (1, 1000) for b in (0, 1000) for f in (0, 2000)]
+    tasks += random_tasks(rng, 200 if q else 3000, [3, 4, 4, 5], ["cand", "seeds", "sets", "exp", "skipmin"], (3, 6), "c", cfgs=cfgs,
+                          profiles=["sparse", "modular"])
+    tasks += gadget_tasks("g", [[{"op": "seeds", "n": 1}], [{"op": "sets", "n": 1}], [{"op": "build"}],
+                                [FULL_BFS, {"op": "allseeds"}], [{"op": "exp", "n": 1}, {"op": "skiprem"}, {"op": "allseeds"}]])
+    invs = ["Inv_HANG", "Inv_LOOP", "Inv_WORK"]
+    res.cov["rule"] = ("(1) TLC checks Termination of the AttractorTest model (interleaved forward/backward saturation) for every pivot, every avoid set "
+                       "and every answer of the symbolic-size oracle on all two-variable networks (thorough: + a catalogue of 3-variable networks), "
+                       "(2) TLC checks under weak fairness that every started expansion call of the SD model returns, (3) random histories of all "
+                       "public operations on sparse/modular 3-6 variable networks (the class on which the pre-fix livelock occurred) run under a "
+                       "watchdog; every main-loop iteration of symbolic_attractor_test is logged by the guarded hook and TLC checks each consecutive "
+                       "pair is a legal, progressing step of the modelled loop and that the executed loop back-edges of each call stay below a "
+                       "bound in state-space size, diagram size and simulation budget. Non-trivial: distinct histories with at least one "
+                       "attractor-test call of >= 2 iterations.")
+
+    def nt(tr):
+        return any(len(L["its"]) >= 2 for e in tr["events"] for L in e["loops"])
+    execute_and_validate(res, tasks, invs, "live", nt)
+
+
+# ------------------------------------------------------------------------------------------------
+# relational properties (Twin.tla)
+# ------------------------------------------------------------------------------------------------
+def run_twin(res: Result, tasks, twin_invs, single_invs, label, nontrivial):
+    import twin
+    wd = os.path.join(sdcheck.WORK, res.pid, "twin_" + label)
+    shutil.rmtree(wd, ignore_errors=True)
+    os.makedirs(wd)
+    tf = os.path.join(wd, "twins.ndjson")
+    sf = os.path.join(wd, "singles.ndjson")
+    twin.record_many(tasks, tf, sf)
+    out = tlc.validate_traces(tf, "Twin", twin_invs + ["Inv_UNKNOWN"], os.path.join(wd, "v_twin"))
+    pairs = {}
+    for ln in open(tf):
+        t = json.loads(ln)
+        pairs[t["tid"]] = t
+    res.cov["traces_validated_against_impl"] += out["traces"]
+    res.cov["states"] += out["states"]
+    res.cov["transitions"] += out["generated"]
+    res.cov["evaluations"] += sum(len(t["map"]) for t in pairs.values())
+    seen = set()
+    for t in pairs.values():
+        key = json.dumps([t["net"], t["calls"], t["rel"], t.get("presentation"), t["val"]])
+        if key not in seen:
+            seen.add(key)
+            if nontrivial(t):
+                res.cov["distinct_nontrivial"] += 1
+    for t in list(pairs.values())[:2]:
+        res.cov["samples"].append({"tid": t["tid"], "rel": t["rel"], "net": t["net"], "calls": t["calls"],
+                                   "presentation": t.get("presentation"), "final_nodes": len(t["b"][-1]["post"]["nodes"])})
+    viol = {}
+    for (inv, tid, l, op) in out["violations"]:
+        viol.setdefault(tid, []).append((inv, l))
+    known = sdcheck.load_known()
+    for k, (tid, vs) in enumerate(sorted(viol.items())):
+        t = pairs[tid]
+        hit = [e for e in known.get("open", []) if e["property"] == res.pid and e["match"].get("twin") and
+               e["match"].get("net") == t["net"]["f"]]
+        if hit:
+            msg = f"KNOWN-FINDING: property={res.pid} {hit[0]['id']}: {hit[0]['what']}"
+            if msg not in res.known:
+                res.known.append(msg)
+            continue
+        if k >= 25:
+            break
+        vd = os.path.join(sdcheck.WORK, res.pid, "violations", f"{label}_{tid}")
+        os.makedirs(vd, exist_ok=True)
+        json.dump(t, open(os.path.join(vd, "trace.json"), "w"))
+        json.dump({"property": res.pid, "engine": "twin", "relation": t["rel"], "failing": [{"clause": i, "pair": l} for (i, l) in vs],
+                   "net": t["net"], "calls": t["calls"], "presentation": t.get("presentation")},
+                  open(os.path.join(vd, "verdict.json"), "w"), indent=1)
+        res.violations.append(vd)
+    if single_invs and os.path.getsize(sf) > 0:
+        out2 = tlc.validate_traces(sf, "SDTrace", sdcheck.CONF_CLAUSES + single_invs, os.path.join(wd, "v_single"))
+        res.cov["traces_validated_against_impl"] += out2["traces"]
+        res.cov["states"] += out2["states"]
+        res.cov["transitions"] += out2["generated"]
+        singles = {}
+        for ln in open(sf):
+            t = json.loads(ln)
+            singles[t["tid"]] = t
+        byt = {}
+        for (inv, tid, l, op) in out2["violations"]:
+            byt.setdefault(tid, []).append((inv, l, op))
+        for k, (tid, vs) in enumerate(sorted(byt.items())):
+            if k >= 25:
+                break
+            vd = os.path.join(sdcheck.WORK, res.pid, "violations", f"{label}_single_{tid}")
+            os.makedirs(vd, exist_ok=True)
+            json.dump(singles[tid], open(os.path.join(vd, "trace.json"), "w"))
+            json.dump({"property": res.pid, "failing": [{"invariant": i, "event": l, "op": o} for (i, l, o) in vs],
+                       "net": singles[tid]["net"]}, open(os.path.join(vd, "verdict.json"), "w"), indent=1)
+            res.violations.append(vd)
+
+
+def _hist(rng, kinds, steps, nnodes_guess=4, nvars=3):
+    return [gen.random_op(rng, kinds, nnodes_guess, nvars) for _ in range(steps)]
+
+
+def c19(res: Result):
+    q = res.tier == Q
+    rng = random.Random(res.seed + 19)
+    run_mc(res, "determinism", ["exp", "bfs", "dfs", "min", "skiprem", "seeds"], 2, [2], [1000], ["Inv_WF"], None)
+    tasks = []
+    pool = gen.network_pool(rng, 60 if q else 800, [3, 4, 4, 5, 5, 6], ["sparse", "modular", "mixed"])
+    strategies = COMPLETE_DEFAULT + [[{"op": "min", "n": 1, "size": -1, "skip": True}, {"op": "skiprem"}], [{"op": "scc", "maa": False}],
+                                     [{"op": "block", "maa": False, "optsrc": False, "exact": False, "size": -1}]]
+    for i, tt in enumerate(pool):
+        n = len(tt)
+        target = [rng.choice([0, 1, 2]) for _ in range(n)]
+        if all(x == 2 for x in target):
+            target[0] = 1
+        ops = list(rng.choice(strategies)) + [{"op": "allseeds"}, {"op": "allsets"},
+                                              {"op": "control", "target": target, "strategy": rng.choice(["internal", "all"]), "sonly": False}]
+        prelude = [{"tt": pool[(i + 7) % len(pool)], "ops": [{"op": "build"}, {"op": "allsets"}]},
+                   {"tt": pool[(i + 13) % len(pool)], "ops": [{"op": "seeds", "n": 1, "fallback": True}, {"op": "skiprem"}, {"op": "allseeds"}],
+                    "cfg": {"maxm": 100000, "candlim": 1, "rsthr": 1000, "simbudget": 1000, "nfvsthr": 2000}}]
+        tasks.append({"kind": "same", "tid": f"s{i}", "tt": tt, "ops": ops, "prelude": prelude,
+                      "hashseeds": ["1", "2", "random"] if q else ["1", "2", "3", "4", "random", "random"]})
+    res.cov["rule"] = ("The same call history (a complete strategy, seeds and sets for all nodes, a control call) is executed in fresh interpreters with "
+                       "PYTHONHASHSEED 0 / 1 / 2 / random, twice in one process, and after unrelated library activity (other diagrams built, symbolic "
+                       "fallback, skipping); Twin.tla requires every logged item to be identical: ids, spaces, edges, motif order, depths, candidates, "
+                       "seeds, sets, return values and the order of the returned interventions. Non-trivial: distinct (network, history) with >= 3 nodes.")
+    run_twin(res, tasks, ["Inv_POST", "Inv_OUT"], [], "same", lambda t: len(t["b"][-1]["post"]["nodes"]) >= 3)
+
+
+def c16(res: Result):
+    q = res.tier == Q
+    rng = random.Random(res.seed + 16)
+    run_mc(res, "reclaim", ["exp", "bfs", "skipmin", "cand", "seeds", "sets", "reclaim"], 2, [2], [1000], ["Inv_WF", "Inv_CacheFresh"], None)
+    tasks = []
+    kinds = ["exp", "bfs", "dfs", "min", "minskip", "skipmin", "skiprem", "cand", "seeds", "sets", "tgt", "aseeds"]
+    pool = gen.network_pool(rng, 120 if q else 1500, [3, 3, 4, 4, 5], ["sparse", "modular", "mixed"])
+    for i, tt in enumerate(pool):
+        n = len(tt)
+        ops = []
+        nn = 1
+        for _ in range(rng.randint(2, 4)):
+            ops.append(gen.random_op(rng, kinds, nn + 2, n))
+            nn += 2
+        target = [rng.choice([0, 1, 2]) for _ in range(n)]
+        if all(x == 2 for x in target):
+            target[0] = 0
+        ops += [{"op": "control", "target": target, "strategy": "internal", "sonly": False}, {"op": "bfs", "n": 1, "lvl": -1, "size": -1}, {"op": "allseeds"}]
+        t = {"kind": "transp", "tid": f"t{i}", "tt": tt, "ops": ops, "inserts": ["pickle", "reclaim"]}
+        if i % 4 == 0:
+            # networks built through the AEON API with a non-alphabetical declaration order
+            names = bn.names_for(n)
+            rng.shuffle(names)
+            t["names"] = names
+            t["api"] = True
+        tasks.append(t)
+    res.cov["rule"] = ("For random histories of expansion / skip / attractor / control calls, the same history with pickle.loads(pickle.dumps(sd)) or "
+                       "reclaim_node_data() inserted at every position is executed; Twin.tla requires identical ids, spaces, edges, motifs, flags, depths, "
+                       "seeds, sets, return values and interventions after every corresponding call (raw candidate lists only where neither side reclaimed "
+                       "them). A quarter of the networks is built through the AEON API with variables declared in non-alphabetical order. The runs with the "
+                       "insertions are also validated event by event by SDTrace. Non-trivial: distinct (network, history, insertion point) with >= 3 nodes.")
+    run_twin(res, tasks, ["Inv_POST", "Inv_OUT"], ["Inv_STRUCT", "Inv_IDS", "Inv_DEPTHC", "Inv_IDX", "Inv_CACHE", "Inv_RET", "Inv_IndexExact"],
+             "transp", lambda t: len(t["b"][-1]["post"]["nodes"]) >= 3)
+
+
+def c17(res: Result):
+    q = res.tier == Q
+    rng = random.Random(res.seed + 17)
+    tasks = []
+    pool = gen.network_pool(rng, 150 if q else 2500, [2, 3, 3, 4, 4, 5], ["sparse", "modular", "mixed", "dense"])
+    pool += [tt for _, tt in gen.gadget_networks().items() if len(tt) <= 6]
+    for i, tt in enumerate(pool):
+        ops = list(rng.choice(COMPLETE_DEFAULT + [[{"op": "min", "n": 1, "size": -1, "skip": False}], [{"op": "scc", "maa": False}]])) + [{"op": "allsets"}]
+        tasks.append({"kind": "sigma", "tid": f"p{i}", "tt": tt, "ops": ops, "seed": rng.randrange(1 << 30), "variants": 3 if q else 6})
+    res.cov["rule"] = ("Each network is presented in several ways: variables renamed (names whose alphabetical order differs from the declaration order, "
+                       "mixed case, digits, underscores), declarations shuffled, update functions rendered as minterm DNF or as random Shannon "
+                       "expansions, variables encoded by their negation, and bnet / aeon / sbml text; the library is run on the original and on each "
+                       "presentation. Twin.tla checks the diagrams are isomorphic under the variable permutation and negation (nodes, flags, edges, motif "
+                       "sets, minimal trap spaces) and the attractor sets map onto each other; every presentation run is also validated against the "
+                       "transformed truth tables by SDTrace. Name sanitization is validated in the C10/C17 pure events. Non-trivial: distinct presentations "
+                       "of networks with >= 3 nodes.")
+    run_twin(res, tasks, ["Inv_ISO", "Inv_MIN", "Inv_ATTR", "Inv_OUT"], ["Inv_WF", "Inv_C01", "Inv_MinExact", "Inv_PartialFaithful", "Inv_CacheFresh"],
+             "sigma", lambda t: len(t["b"][-1]["post"]["nodes"]) >= 3)
+
+
+def c18(res: Result):
+    q = res.tier == Q
+    rng = random.Random(res.seed + 18)
+    run_theorems(res, ["T_Attr", "T_MinTrap"])
+    # (1) disjoint unions: validated directly against the composed truth tables (C01 / C03 invariants)
+    small = [tt for tt in gen.network_pool(rng, 60 if q else 400, [1, 2, 2, 3, 3], ["mixed", "sparse", "dense"]) if len(tt) >= 1]
+    small += [tt for _, tt in gen.gadget_networks().items() if len(tt) <= 3]
+    tasks = []
+    for i in range(150 if q else 2000):
+        a, b = rng.choice(small), rng.choice(small)
+        tt = bn.disjoint_union(a, b)
+        strat = rng.choice(COMPLETE_DEFAULT)
+        tasks.append({"tid": f"u{i}", "tt": tt, "ops": list(strat) + [{"op": "expseeds"}], "meta": f"disjoint union {len(a)}+{len(b)}"})
+    execute_and_validate(res, tasks, ["Inv_C01", "Inv_MinExact", "Inv_WF"], "union",
+                         lambda tr: sum(len(n["seeds"]["v"]) for n in tr["events"][-1]["post"]["nodes"]) >= 2)
+    # (2) inputs fixed vs free
+    tw = []
+    k = 0
+    while len(tw) < (60 if q else 600) and k < 20000:
+        k += 1
+        n = rng.choice([3, 4, 4, 5])
+        tt = bn.random_network(rng, n, "modular")
+        nsrc = sum(1 for i in range(n) if all(tt[i][s] == ((s >> i) & 1) for s in range(1 << n)))
+        if 1 <= nsrc <= 2:
+            tw.append({"kind": "below", "tid": f"b{len(tw)}", "tt": tt})
+    res.cov["rule"] = ("(1) disjoint unions of two 1-3 variable networks under each complete strategy: TLC computes minimal trap spaces and attractors of the "
+                       "composed truth tables and checks the library's result (the product structure is a TLC-checked theorem of the definitions); "
+                       "(2) networks with 1-2 source variables: for every input valuation the fully expanded diagram of the network with the sources "
+                       "replaced by constants must equal (node spaces, flags, edges, attractor sets) the part of the free-input diagram inside that "
+                       "valuation (Twin relation 'below'), and both runs are validated by SDTrace. The third clause (published models vs an independent "
+                       "symbolic computation) is covered only for models whose percolated core is small enough for explicit-state TLC (see DESIGN.md). "
+                       "Non-trivial: distinct compositions with >= 2 attractors / valuations with >= 2 nodes.")
+    run_twin(res, tw, ["Inv_ISO", "Inv_ATTR"], ["Inv_WF", "Inv_FullExact", "Inv_CacheFresh", "Inv_SetsFresh"], "below",
+             lambda t: len(t["b"][-1]["post"]["nodes"]) >= 2)
+
+
+CHECKS = {"C16": c16, "C17": c17, "C18": c18, "C19": c19, "C13": c13, "C06": c06, "C07": c07, "C09": c09, "C10": c10, "C11": c11, "C15": c15, "C01": c01, "C02": c02, "C03": c03, "C04": c04, "C05": c05, "C08": c08, "C12": c12, "C14": c14, "C20": c20}
 
 
 def run(pid: str, tier: str, seed: int) -> int:
